@@ -6,6 +6,7 @@
 package c30
 
 import (
+	"bytes"
 	"fmt"
 	"math"
 	"testing"
@@ -226,7 +227,23 @@ func checkEq(c eqCase) error {
 			}
 		}
 	}
-	// 5. cmp.Equal under protocmp.Transform agrees (claimed for messages without NaN, Any, unknown)
+	// 5. documented guarantee: equal deterministic encodings imply Equal
+	var det [3][]byte
+	for i := range ms {
+		b, err := proto.MarshalOptions{AllowPartial: true, Deterministic: true}.Marshal(ms[i].Interface())
+		if err != nil {
+			return fmt.Errorf("deterministic Marshal(%s) failed on valid content: %v", name[i], err)
+		}
+		det[i] = b
+	}
+	for i := range ms {
+		for j := range ms {
+			if bytes.Equal(det[i], det[j]) && !got[i][j] {
+				return fmt.Errorf("%s and %s marshal to the same bytes under deterministic serialization (%x) but proto.Equal reports false", name[i], name[j], det[i])
+			}
+		}
+	}
+	// 6. cmp.Equal under protocmp.Transform agrees (claimed for messages without NaN, Any, unknown)
 	for _, p := range [][2]int{{0, 1}, {1, 2}, {2, 0}} {
 		i, j := p[0], p[1]
 		if cmpEligible(fs[i]) && cmpEligible(fs[j]) {
@@ -326,14 +343,14 @@ func (v variant) fromOr0() int {
 func TestEquivalence(t *testing.T) {
 	pbt.Run(t, pbt.Prop[eqCase]{
 		Name:  "equivalence",
-		Rule:  "triple (x,y,z) of one type from corpus.Standard() (half of the draws from the >=20-field types), all generated / all dynamicpb / mixed; x from the descriptor-directed generator then enriched (NaN, +-0, empty bytes, unknown fields with repeated numbers planted at random depth); y derived from x and z from x or y by one near-miss derivation (copy, independent draw, one scalar / map value / map key changed, list length or order changed, NaN payload variant, zero sign flipped, empty bytes as nil, empty containers allocated incl. empty extension lists, one unknown record changed, unknown records permuted across numbers (must stay Equal) or within a number (must not), field dropped / added, oneof member switched, empty submessage vs absent); all 9 ordered pairs vs the model oracle for proto.Equal and Value.Equal, equivalence laws, separately built copy, Clone and decode(encode) images with congruence, cmp.Equal+protocmp.Transform where claimed; non-trivial = some derivation changed (or tolerated a difference at) a site at nesting depth >= 2",
+		Rule:  "triple (x,y,z) of one type from corpus.Standard() (half of the draws from the >=20-field types), all generated / all dynamicpb / mixed; x from the descriptor-directed generator then enriched (NaN, +-0, empty bytes, unknown fields with repeated numbers planted at random depth); y derived from x and z from x or y by one near-miss derivation (copy, independent draw, one scalar / map value / map key changed, list length or order changed, NaN payload variant, zero sign flipped, empty bytes as nil, empty containers allocated incl. empty extension lists, one unknown record changed, unknown records permuted across numbers (must stay Equal) or within a number (must not), field dropped / added, oneof member switched, empty submessage vs absent); all 9 ordered pairs vs the model oracle for proto.Equal and Value.Equal, equivalence laws, separately built copy, Clone and decode(encode) images with congruence, equal deterministic bytes imply Equal, cmp.Equal+protocmp.Transform where claimed; non-trivial = some derivation changed (or tolerated a difference at) a site at nesting depth >= 2",
 		Draw:  drawCase,
 		Check: checkEq,
 		NonTrivial: func(c eqCase) bool {
 			return c.V[1].Depth >= 2 || c.V[2].Depth >= 2
 		},
 		Classes: classesOf,
-		Quick:   15000, Thorough: 50000,
+		Quick:   10000, Thorough: 40000,
 	})
 }
 
